@@ -190,9 +190,9 @@ def snapshot_case(seed, i, engine):
 
 
 def check(rep, tier, seed):
-    n, n_ops = (60, 80) if tier == "quick" else (1200, 200)
+    n, n_ops = (60, 80) if tier == "quick" else (6000, 200)
     cases = [gen_case(seed, i, ENGINES[i % len(ENGINES)], n_ops) for i in range(n)]
-    cases += [snapshot_case(seed, i, ENGINES[i % 3]) for i in range(3 if tier == "quick" else 30)]
+    cases += [snapshot_case(seed, i, ENGINES[i % 3]) for i in range(3 if tier == "quick" else 120)]
     # atomicity beyond the engine's per-transaction size limit (Badger: ~104857 entries): one batch of n puts whose
     # last operation fails its condition must leave nothing behind
     for eng, n_big in [("memkv", 2000), ("badger", 120000), ("metrics-badger", 120000)] + ([("tikv", 3000)] if tier != "quick" else []):
